@@ -226,7 +226,7 @@ var (
 	c20ReUnhashed  = regexp.MustCompile(`(?m)^X-Unhashed: (\d+)\r\n`)
 	c20ReLit       = regexp.MustCompile(`\{(\d+)\}\r\n`)
 	c20ReAppendUID = regexp.MustCompile(`\[APPENDUID (\d+) (\d+)\]`)
-	c20ReCopyUID   = regexp.MustCompile(`\[COPYUID (\d+) ([0-9:,]*) ([0-9:,]+)\]`) // the source set can be empty (MOVE out of recovery, partly de-duplicated)
+	c20ReCopyUID   = regexp.MustCompile(`\[COPYUID (\d+) ([0-9:,]*) ([0-9:,]+)\]`) // tolerant of an empty source set (seen before fix afeb569; today it would be a disagreement with the model)
 	c20ReListLine  = regexp.MustCompile(`^\* LIST \(([^)]*)\) (?:"[^"]*"|NIL) (.*)$`)
 )
 
